@@ -205,8 +205,9 @@ class ResolvePortRefs(ElabPass):
         if len(connected_to_none) > 1:
             self.fail(f"Invalid PortRef group: {group}")
 
-        # Nothing "unconnected". Find the instance one with the lowest (alphabetical) name.
-        ordered = sorted(group, key=lambda p: p.inst.name)
+        # Nothing "unconnected". Find the one with the lowest (alphabetical) instance and port name.
+        # (The port name breaks ties between several ports of one instance, which `group` holds in hash order.)
+        ordered = sorted(group, key=lambda p: (p.inst.name, p.portname))
         return ordered[0]
 
     def create_source(self, module: Module, group: List[PortRef]) -> PortType:
